@@ -349,6 +349,11 @@ def gen_programs(rng, tier, menus):
                                                   "addnode 4", "section S0", "embed 07", "section S1", "embed 08"], "corner"))
         progs.append(Program(arch, "builder", 0, ["embed 01", "embed 02", "embed 03", "embed 04", "cursor 3", "removerange 2 3", "embed 05",
                                                   "cursor 4", "removerange 1 4", "embed 06", "cursor 6", "removerange 5 6", "embed 07"], "corner"))
+    # a refused embed_const_pool (pending 1-byte reference cannot reach the pool): the Assembler leaves nothing, the Builder's align node
+    # has been serialized when the bind fails - same first error, the accepted node-level prefix is compared (edited sequence)
+    progs.append(Program("a64", "compiler", 3, ["newlabel", "elabel L0 1", mi("a64", "tbz"), "cpool L0 4 9d9d9d9d", "newlabel"],
+                         "corner"))
+    progs.append(Program("a64", "builder", 0, ["newlabel", "elabel L0 1", "embed 01", "cpool L0 8 0102030405060708", "embed 02"], "corner"))
     # witness of the open finding C08-K2 (cross-section label delta under section re-entry)
     progs.append(Program("x64", "builder", 0, ["newlabel", "newlabel", "newsection", "section S1", "edelta L1 L0 8", "section S0",
                                                "bind L0", "embed 0102", "bind L1"], "corner"))
@@ -486,6 +491,19 @@ def pipeline(h, progs):
             continue
         ml = ["mbegin " + p.arch]
         rl = [l for l in b if l.startswith("R ")]
+        # A refused embed_const_pool: the directly driven Assembler validates first and leaves NOTHING behind (/repo fixes C14-12/14),
+        # whereas the Builder holds the call as align + label + data nodes, so serialize_to emits the padding and then fails at the
+        # bind. Same first error, different residue of the failing call. The comparable thing for a failing finalize is the accepted
+        # prefix at node level = the edited-sequence comparison (always made, exact); the verbatim run of such a program is judged on
+        # its first error only.
+        error_only = False
+        if how == "verbatim" and fa != ["F ok"]:
+            ar0 = [l for l in a if l.startswith("R ")][1:1 + len(p.ops)]
+            for o, rb, ra in zip(p.ops, rl[1:1 + len(p.ops)], ar0):
+                if ra.startswith("R err") and not rb.startswith("R err"):
+                    error_only = o.split()[0] == "cpool"
+                    break
+        results[i]["error_only"] = results[i].get("error_only") or error_only
         for o, r in zip(p.ops, rl[1:1 + len(p.ops)]):
             ml.append("mop " + o)
             ml.append("mR " + r[2:])
@@ -494,12 +512,12 @@ def pipeline(h, progs):
                 ml.append("mC " + l[2:])
             elif l.startswith("F "):
                 ml.append("mFB " + l[2:])
-            elif l.startswith("D ") or l.startswith("I "):
+            elif (l.startswith("D ") or l.startswith("I ")) and not error_only:
                 ml.append("mDB " + l)
         for l in a:
             if l.startswith("F "):
                 ml.append("mFA " + l[2:])
-            elif l.startswith("D ") or l.startswith("I "):
+            elif (l.startswith("D ") or l.startswith("I ")) and not error_only:
                 ml.append("mDA " + l)
         # call-time errors: what the Builder refused at call time the Assembler must refuse with the same code (`~` lines)
         if how == "verbatim":
@@ -617,6 +635,10 @@ def run(res):
         "set_cursor of a linked node) are respected: lines violating them are answered `pre` by both sides",
         "label ids used in operands / bind / embed_label either exist at call time or never exist (an id created later is valid when the "
         "Builder serializes but not when the Assembler is called directly - inherent to deferred emission, excluded)",
+        "a finalize that fails is compared with the Assembler at NODE level (the serialized calls up to the failing node - the "
+        "edited-sequence run, exact, same first error); the verbatim run of a program whose first refused call is an embed_const_pool is "
+        "judged on the first error only, because the directly driven Assembler validates the whole pool embed first and leaves nothing "
+        "(/repo C14-12/14) while the Builder's align node has already been serialized when the bind fails",
         "model follows /repo with fixes/C08-1..4 and C14-12 (embed_const_pool refuses a bound label before aligning) applied"]
     broken = []
     ok, out = vlib.lean_stage(res, PID, MODS)
@@ -648,6 +670,9 @@ def run(res):
                 kinds[k2] = kinds.get(k2, 0) + 1
         if r["verdict"] == "good" and any(l.startswith("D sec") and not l.endswith(" -") for l in r.get("b", [])):
             nontriv.add("\n".join(p.ops))
+        if r.get("error_only"):
+            kinds["verbatim judged on the first error only (refused embed_const_pool)"] = \
+                kinds.get("verbatim judged on the first error only (refused embed_const_pool)", 0) + 1
         if r["verdict"] != "good":
             bad.append((p, r))
     res.coverage["evaluations"] = nops
